@@ -279,7 +279,7 @@ func init() {
 							continue
 						}
 					}
-					g, t := unsealBoth(c.Type, codec, data)
+					g, t := unsealBoth(c.Type, codec, data, idx)
 					if idx%50 == 0 {
 						rep.sample(map[string]any{"case": json.RawMessage(raw), "codec": codec, "sealed_bytes": len(data), "generic_err": fmt.Sprint(g.err), "typed_err": fmt.Sprint(t.err)})
 					}
